@@ -99,6 +99,15 @@ def gen(rng, max_n=8, p_sel=0.3, p_fail=0.06, mixed=True, indexed_flags=True):
         if sum(1 for s_ in specs if s_.get("setup")) >= 1:
             sc["op"] = "setup"
             sc["setup_via_executor"] = rng.random() < 0.4
+            if not sc["setup_via_executor"] and rng.random() < 0.5:
+                # setup() restricted by a selection of its own: roots (setup nodes without predecessors) or targets
+                su_ = [i_ for i_, s_ in enumerate(specs) if s_.get("setup")]
+                ro_ = [i_ for i_ in su_ if not specs[i_]["preds"]]
+                if ro_ and rng.random() < 0.6:
+                    # (setup() aims at EVERY setup node unless told otherwise: the roots given must reach them all)
+                    sc["setup_sel"] = dict(R=sorted(ro_), X=None, T=None)
+                else:
+                    sc["setup_sel"] = dict(R=None, X=None, T=sorted(rng.sample(su_, rng.randint(1, min(2, len(su_))))))
         else:
             for s_ in specs:
                 s_.pop("setup", None)
@@ -233,6 +242,15 @@ def directed(rng):
             specs.append(node(preds=[3], prio=0, res=kind))
         out.append(dict(n=len(specs), specs=specs, maxc=rng.choice([3, 4]), is_async=rng.random() < 0.3, sel=None, nested=False,
                         script=dict(decisions=[{(0, 1): 3, (0, 2): 4, (1, 2): 5}[(i_, j_)]])))
+    for _ in range(5):
+        # an explicit setup() restricted to roots, over setup nodes that form a DIAMOND below the root: the join waits for both arms
+        kind = rng.choice(["t", "t", "a"])
+        specs = [dict(node(prio=1, res=kind), setup=True), dict(node(preds=[0], prio=rng.choice([0, 3]), res=kind), setup=True),
+                 dict(node(preds=[0], prio=rng.choice([0, 3]), res=kind), setup=True),
+                 dict(node(preds=[1, 2], prio=5, res=rng.choice([kind, "m"])), setup=True), node(preds=[3], prio=0, res="t")]
+        out.append(dict(n=len(specs), specs=specs, maxc=rng.choice([2, 3]), is_async=rng.random() < 0.3, sel=None, nested=False, op="setup",
+                        setup_sel=dict(R=[0], X=None, T=None) if rng.random() < 0.7 else dict(R=None, X=None, T=[3]),
+                        script=dict(seed=rng.randrange(1 << 30))))
     for _ in range(4):
         # a tag carried by a non-sequential node and (later in the description) a sequential one, reconfigured through the tag
         # by an entry that states the priority only: both keep their own sequential flag
@@ -596,13 +614,15 @@ def _run_scenario(sc, timeout):
             R, outcome = control.run_controlled(lambda: arun(sc, ex) if sc["is_async"] else ex(), script, timeout=timeout)
             return dict(run=R, outcome=outcome, selected=graph_nodes, real_cp=real_cp, script_trace=script.trace)
     if sc.get("op") == "setup":
-        g_ = d._pre_setup(None, None, None)       # the graph an explicit setup() runs
+        ss_ = sc.get("setup_sel") or {}
+        g_ = d._pre_setup(ids(ss_.get("T")), ids(ss_.get("X")), ids(ss_.get("R")))       # the graph an explicit setup() runs
         graph_nodes = {int(norm_id(x)[1:]) for x in g_.nodes if norm_id(x).startswith("n") and norm_id(x)[1:].isdigit()}
         real_cp = {norm_id(k): g_.compound_priority[k] for k in list(g_.nodes)}
         script = control.Script(decisions=sc["script"]["decisions"]) if "decisions" in sc["script"] else \
             control.Script(rng=random.Random(sc["script"]["seed"]))
         # setup() of the DAG itself, or of an executor object of it (the same setup nodes: the executor selects nothing)
-        su = d.executor().setup if sc.get("setup_via_executor") else d.setup
+        su = d.executor().setup if sc.get("setup_via_executor") else \
+            (lambda: d.setup(target_nodes=ids(ss_.get("T")), exclude_nodes=ids(ss_.get("X")), root_nodes=ids(ss_.get("R"))))
         R, outcome = control.run_controlled(lambda: arun(sc, su) if sc["is_async"] else su(), script, timeout=timeout)
         return dict(run=R, outcome=outcome, selected=graph_nodes, real_cp=real_cp, script_trace=script.trace)
     if sc.get("warm") and not sc.get("reconf"):
